@@ -21,6 +21,7 @@ import (
 	"strings"
 
 	"github.com/ontio/ontology/common/log"
+	"github.com/ontio/ontology/consensus/vbft"
 
 	"verif/harness/hx"
 )
@@ -134,6 +135,152 @@ func noEquiv(l []mBlk) bool {
 		}
 	}
 	return true
+}
+
+// ---------- why did two nodes seal different blocks? ----------
+
+// support is what a sealing node's pool was given for the proposer it sealed: the peers NAMED as
+// signers for that proposer (what the tallies count) and those among them whose signature really
+// verifies under their key over a block of that proposer.
+type support struct {
+	keys1   map[uint32]bool // committers and listed endorsers of the accepted commit messages for p
+	claimed map[uint32]bool // keys1, endorsers of non-empty endorsements for p, and p itself
+	valid   map[uint32]bool
+}
+
+func (r *runner) supportOf(node, p uint32) support {
+	nw := r.nw
+	sp := support{keys1: map[uint32]bool{}, claimed: map[uint32]bool{p: true}, valid: map[uint32]bool{}}
+	committers := map[uint32]bool{}
+	for _, pk := range nw.net { // findBlockProposal also looks into the message pool
+		if pk.M.Kind == "proposal" && pk.M.P == p && pk.M.Signer == p && nw.inPeers(p) {
+			sp.valid[p] = true
+		}
+	}
+	for _, m := range r.processed[node] {
+		switch m.Kind {
+		case "proposal":
+			if m.P == p && m.Signer == p && nw.inPeers(p) {
+				sp.valid[p] = true
+			}
+		case "endorse":
+			if m.P != p {
+				continue
+			}
+			if !m.ForEmpty {
+				sp.claimed[m.Claimed] = true
+			}
+			if sigValid(m.S, m.Claimed, m.H, m.P, m.ForEmpty) && nw.inPeers(m.Claimed) {
+				sp.valid[m.Claimed] = true
+			}
+		case "commit":
+			if committers[m.Claimed] {
+				continue // one committer, one commit: the pool refused it
+			}
+			committers[m.Claimed] = true
+			if m.P != p {
+				continue
+			}
+			sp.keys1[m.Claimed], sp.claimed[m.Claimed] = true, true
+			if sigValid(m.S, m.Claimed, m.H, m.P, m.ForEmpty) && nw.inPeers(m.Claimed) {
+				sp.valid[m.Claimed] = true
+			}
+			for _, e := range m.Ends {
+				sp.keys1[e.Idx], sp.claimed[e.Idx] = true, true
+				if sigValid(e.S, e.Idx, m.H, m.P, m.ForEmpty) && nw.inPeers(e.Idx) {
+					sp.valid[e.Idx] = true
+				}
+			}
+		}
+	}
+	return sp
+}
+
+// sealCause: "backed" (a quorum of peers with verifying signatures for the sealed proposer is in
+// the pool), or the known cause for which the tally was short of that, or "" when nothing the
+// node was given explains its seal.
+func (r *runner) sealCause(node uint32, b mBlk) (string, support) {
+	q := int(r.nw.p.N) - (int(r.nw.p.N)-1)/3
+	sp := r.supportOf(node, b.P)
+	switch {
+	case len(sp.valid) >= q:
+		return "backed", sp
+	case sp.keys1[b.P] && len(sp.keys1)+1 >= q && len(sp.claimed) < q:
+		return "safety:proposer-counted-twice", sp
+	case len(sp.claimed) >= q && len(sp.claimed) > len(sp.valid):
+		return "safety:unverified-intake", sp
+	case sp.keys1[b.P] && len(sp.keys1)+1 >= q:
+		return "safety:proposer-counted-twice", sp
+	}
+	return "", sp
+}
+
+// classify names the cause of a disagreement. A known finding class is assigned only on positive
+// evidence of its cause at the disagreeing nodes themselves; everything else is unlisted.
+func (r *runner) classify(sealed map[uint32]mBlk) (string, string) {
+	nw := r.nw
+	unlisted := "safety:outside-known-classes"
+	if len(nw.p.Byz) == 0 {
+		unlisted = "safety:honest-only-disagreement"
+	}
+	var nodes []uint32
+	for _, idx := range nw.p.Peers {
+		if _, ok := sealed[idx]; ok {
+			nodes = append(nodes, idx)
+		}
+	}
+	class, why := "", ""
+	for _, a := range nodes {
+		for _, b := range nodes {
+			ba, bb := sealed[a], sealed[b]
+			if a >= b || ba == bb {
+				continue
+			}
+			ca, sa := r.sealCause(a, ba)
+			cb, sb := r.sealCause(b, bb)
+			pair := fmt.Sprintf("node %d sealed %v (%s; named %d, verifying %d), node %d sealed %v (%s; named %d, verifying %d)",
+				a, ba, ca, len(sa.claimed), len(sa.valid), b, bb, cb, len(sb.claimed), len(sb.valid))
+			cl := ""
+			switch {
+			case ca == "" || cb == "":
+				return unlisted, pair + ": a seal that nothing in the node's pool explains"
+			case ca != "backed":
+				cl = ca
+			case cb != "backed":
+				cl = cb
+			case ba.P == bb.P && ba.K != bb.K:
+				cl = "safety:proposer-equivocation"
+			case ba.P == bb.P && ba.K == bb.K:
+				cl = "safety:empty-flag-not-quorum-backed"
+			default:
+				// two genuine quorums for different proposers: an honest peer must be in both
+				for i := range sa.valid {
+					if sb.valid[i] && nw.honest(i) {
+						votedA, votedB := false, false
+						for _, x := range nw.signed[i] {
+							votedA = votedA || x.P == ba.P
+							votedB = votedB || x.P == bb.P
+						}
+						if votedA && votedB {
+							cl = "safety:honest-double-vote"
+							pair += fmt.Sprintf("; honest peer %d signed for both proposers", i)
+							break
+						}
+					}
+				}
+				if cl == "" {
+					return unlisted, pair + ": two quorums without a common honest voter"
+				}
+			}
+			if class == "" {
+				class, why = cl, pair
+			}
+		}
+	}
+	if class == "" {
+		return unlisted, "no disagreeing pair found"
+	}
+	return class, why
 }
 
 // ---------- running, checking and recording one schedule ----------
@@ -277,19 +424,8 @@ func (r *runner) finish(c *hx.Ctx, label string, sample bool) {
 	got := map[string]interface{}{"sealed": fmt.Sprintf("%v", sealed), "verified_intake": all.V, "no_double_count": all.D,
 		"empty_free": all.E, "single_vote": all.U, "no_equivocation": q}
 	if len(distinct) > 1 {
-		class := "safety:outside-known-classes"
-		switch {
-		case !all.V:
-			class = "safety:unverified-intake"
-		case !all.D:
-			class = "safety:proposer-counted-twice"
-		case !q:
-			class = "safety:proposer-equivocation"
-		case !all.E:
-			class = "safety:empty-flag-not-quorum-backed"
-		case !all.U:
-			class = "safety:honest-double-vote"
-		}
+		class, why := r.classify(sealed)
+		got["evidence"] = why
 		c.Count("disagreement:" + class)
 		c.Fail(class, "two honest nodes sealed different blocks at one height", sched, got, "one sealed block per height")
 	} else if len(sealed) > 1 {
@@ -324,6 +460,91 @@ func (r *runner) finish(c *hx.Ctx, label string, sample bool) {
 		c.Case(term, map[string]interface{}{"schedule": label, "node": idx, "events": len(steps), "params": nw.p})
 	}
 	c.Case(fmt.Sprintf("CBlocks %s %s", coqBlks(blocks), hx.CoqBool(q)), map[string]interface{}{"schedule": label, "kind": "no-equivocation"})
+	// getCommitConsensus on the commit messages each node's pool accepted, in order
+	for _, idx := range nw.p.Peers {
+		if !nw.honest(idx) {
+			continue
+		}
+		var specs []vbft.VerifC31CommitSpec
+		seen := map[uint32]bool{}
+		for _, m := range r.processed[idx] {
+			if m.Kind != "commit" || seen[m.Claimed] {
+				continue
+			}
+			seen[m.Claimed] = true
+			sp := vbft.VerifC31CommitSpec{Committer: m.Claimed, Proposer: m.P, ForEmpty: m.ForEmpty}
+			for _, e := range m.Ends {
+				sp.Endorsers = append(sp.Endorsers, e.Idx)
+			}
+			specs = append(specs, sp)
+		}
+		if len(specs) > 0 {
+			gccCase(c, specs, int(nw.p.C), int(nw.p.N), label)
+		}
+	}
+}
+
+// gccCase: one call of the real getCommitConsensus, recorded for the model.
+func gccCase(c *hx.Ctx, specs []vbft.VerifC31CommitSpec, cc, n int, label string) {
+	p, fe := vbft.VerifC31GetCommitConsensus(specs, cc, n)
+	var terms []string
+	props := map[uint32]bool{}
+	for _, sp := range specs {
+		props[sp.Proposer] = true
+		var es []string
+		for _, e := range sp.Endorsers {
+			es = append(es, fmt.Sprintf("(%s, true)", cN(e)))
+		}
+		terms = append(terms, fmt.Sprintf("(mkCM %s %s 0 %s true %s)", cN(sp.Committer), cN(sp.Proposer), hx.CoqBool(sp.ForEmpty), hx.CoqList(es)))
+	}
+	c.Count(fmt.Sprintf("gcc:proposers:%d", len(props)))
+	if p != 0xFFFFFFFF {
+		c.Count("gcc:consensus")
+	}
+	c.Case(fmt.Sprintf("CGcc %s %s %s %s %s", hx.CoqZ(int64(cc)), hx.CoqZ(int64(n)), hx.CoqList(terms), cN(p), hx.CoqBool(fe)),
+		map[string]interface{}{"schedule": label, "kind": "getCommitConsensus", "msgs": specs, "proposer": p, "for_empty": fe})
+}
+
+// gccProbes: commit-message sequences with two competing proposers, every order (the tally is
+// per proposer: signers of different proposals must not be pooled).
+func gccProbes(c *hx.Ctx, count int) {
+	mk := func(cm, p uint32, ends ...uint32) vbft.VerifC31CommitSpec {
+		return vbft.VerifC31CommitSpec{Committer: cm, Proposer: p, Endorsers: ends}
+	}
+	for _, seq := range [][]vbft.VerifC31CommitSpec{
+		{mk(2, 0, 2), mk(3, 1, 3)}, {mk(3, 1, 3), mk(2, 0, 2)},
+		{mk(2, 0), mk(3, 1)}, {mk(3, 1), mk(2, 0)},
+		{mk(2, 0, 2), mk(3, 1, 3), mk(1, 0, 1)}, {mk(3, 1, 3), mk(2, 0, 2), mk(0, 1)},
+	} {
+		gccCase(c, seq, 1, 4, "probe/two-proposals-tally")
+	}
+	for k := 0; k < count; k++ {
+		n := []int{4, 4, 7, 7, 10}[c.Intn(5)]
+		cc := (n - 1) / 3
+		var seq []vbft.VerifC31CommitSpec
+		used := map[uint32]bool{}
+		for j := 1 + c.Intn(n); j > 0; j-- {
+			cm := uint32(c.Intn(n))
+			if used[cm] {
+				continue
+			}
+			used[cm] = true
+			sp := mk(cm, uint32(c.Intn(2+c.Intn(2))))
+			sp.ForEmpty = c.Intn(6) == 0
+			seenE := map[uint32]bool{}
+			for e := c.Intn(3); e > 0; e-- {
+				x := uint32(c.Intn(n))
+				if !seenE[x] {
+					seenE[x] = true
+					sp.Endorsers = append(sp.Endorsers, x)
+				}
+			}
+			seq = append(seq, sp)
+		}
+		if len(seq) > 0 {
+			gccCase(c, seq, cc, n, "gcc/random")
+		}
+	}
 }
 
 func runSchedule(c *hx.Ctx, w *world, s *Schedule, sample bool) {
@@ -368,7 +589,8 @@ func Run(c *hx.Ctx) {
 		}
 		runSchedule(c, w, s, true)
 	}
-	for k := 1; k <= 3; k++ {
+	gccProbes(c, c.N(150, 1500))
+	for k := 1; k <= 4; k++ {
 		s, err := probe(w, k)
 		if err != nil {
 			c.Note("probe: " + err.Error())
